@@ -1,10 +1,19 @@
 import GomlVerif.Model.Unify
+import GomlVerif.Gen.UnifyShape
 /-!
 Theorems about the model of the typer's unifier (`Model/Unify.lean`; Rust: `typer/unify.rs`).
 They count under C03 (soundness of the equations the typer solves) and C04 (`norm` cannot loop).
 -/
 namespace Goml.Unify
 open Goml
+
+/-! ### the model was written against the current shape of `unify.rs` (regenerated on every run) -/
+
+/-- the arms of the Rust `match`, in order, are the ones the model mirrors -/
+theorem arms_match_source : Gen.unifyArms = armOrder := by decide
+
+/-- one diagnostic class per message of `occurs` / `unify`, in source order -/
+theorem diag_messages_match_source : Gen.unifyMessages = Diag.all.map Diag.message := by decide
 
 /-! ### `mapO` -/
 
